@@ -26,7 +26,8 @@ variables
   doneCh = FALSE,               \* close(a.done) happened
   sigB = 0,                     \* tokens buffered in a.signal
   waiting = FALSE,              \* the consumer is blocked in the select
-  delivered = <<>>;             \* ghost: values returned by Recv, in order
+  delivered = <<>>,             \* ghost: values returned by Recv, in order
+  okSent = {};                  \* ghost: items whose Send reported success
 
 define
   RECURSIVE ChainFrom(_)
@@ -50,6 +51,7 @@ A_sig:      if waiting then waiting := FALSE;
             elsif sigB = 0 then sigB := 1;
             end if;
             sent := TRUE;
+            okSent := okSent \cup {<<self, k + 1>>};
           else
             goto A_ld;
           end if;
@@ -80,7 +82,7 @@ end process;
 process closer \in Closers
 variables old = Nil;
 begin
-K_wait: await \A p \in Producers : pc[p] = "Done";      \* Close is called only after all producers completed
+K_wait: skip;                                           \* Close may run at any moment, also between the steps of a Send
 K_swp:  if closed then goto Done; else closed := TRUE; end if;
 K_hd:   old := headN; headN := Nil;
 K_lnk:  next[old] := END;
@@ -88,7 +90,8 @@ K_cl:   doneCh := TRUE; waiting := FALSE;
 end process;
 end algorithm; *)
 \* BEGIN TRANSLATION
-VARIABLES pc, next, headN, tailN, closed, doneCh, sigB, waiting, delivered
+VARIABLES pc, next, headN, tailN, closed, doneCh, sigB, waiting, delivered, 
+          okSent
 
 (* define statement *)
 RECURSIVE ChainFrom(_)
@@ -100,7 +103,7 @@ EndLinked == LET RECURSIVE Reaches(_)
 VARIABLES k, cur, sent, got, nn, val, ok, old
 
 vars == << pc, next, headN, tailN, closed, doneCh, sigB, waiting, delivered, 
-           k, cur, sent, got, nn, val, ok, old >>
+           okSent, k, cur, sent, got, nn, val, ok, old >>
 
 ProcSet == (Producers) \cup {Consumer} \cup (Closers)
 
@@ -113,6 +116,7 @@ Init == (* Global variables *)
         /\ sigB = 0
         /\ waiting = FALSE
         /\ delivered = <<>>
+        /\ okSent = {}
         (* Process prod *)
         /\ k = [self \in Producers |-> 0]
         /\ cur = [self \in Producers |-> Nil]
@@ -135,8 +139,8 @@ ALoop(self) == /\ pc[self] = "ALoop"
                      ELSE /\ pc' = [pc EXCEPT ![self] = "Done"]
                           /\ sent' = sent
                /\ UNCHANGED << next, headN, tailN, closed, doneCh, sigB, 
-                               waiting, delivered, k, cur, got, nn, val, ok, 
-                               old >>
+                               waiting, delivered, okSent, k, cur, got, nn, 
+                               val, ok, old >>
 
 A_ld(self) == /\ pc[self] = "A_ld"
               /\ cur' = [cur EXCEPT ![self] = headN]
@@ -144,8 +148,8 @@ A_ld(self) == /\ pc[self] = "A_ld"
                     THEN /\ pc' = [pc EXCEPT ![self] = "A_ret"]
                     ELSE /\ pc' = [pc EXCEPT ![self] = "A_cas"]
               /\ UNCHANGED << next, headN, tailN, closed, doneCh, sigB, 
-                              waiting, delivered, k, sent, got, nn, val, ok, 
-                              old >>
+                              waiting, delivered, okSent, k, sent, got, nn, 
+                              val, ok, old >>
 
 A_cas(self) == /\ pc[self] = "A_cas"
                /\ IF headN = cur[self]
@@ -154,13 +158,15 @@ A_cas(self) == /\ pc[self] = "A_cas"
                      ELSE /\ pc' = [pc EXCEPT ![self] = "A_ld"]
                           /\ headN' = headN
                /\ UNCHANGED << next, tailN, closed, doneCh, sigB, waiting, 
-                               delivered, k, cur, sent, got, nn, val, ok, old >>
+                               delivered, okSent, k, cur, sent, got, nn, val, 
+                               ok, old >>
 
 A_lnk(self) == /\ pc[self] = "A_lnk"
                /\ next' = [next EXCEPT ![cur[self]] = <<self, k[self] + 1>>]
                /\ pc' = [pc EXCEPT ![self] = "A_sig"]
                /\ UNCHANGED << headN, tailN, closed, doneCh, sigB, waiting, 
-                               delivered, k, cur, sent, got, nn, val, ok, old >>
+                               delivered, okSent, k, cur, sent, got, nn, val, 
+                               ok, old >>
 
 A_sig(self) == /\ pc[self] = "A_sig"
                /\ IF waiting
@@ -172,6 +178,7 @@ A_sig(self) == /\ pc[self] = "A_sig"
                                      /\ sigB' = sigB
                           /\ UNCHANGED waiting
                /\ sent' = [sent EXCEPT ![self] = TRUE]
+               /\ okSent' = (okSent \cup {<<self, k[self] + 1>>})
                /\ pc' = [pc EXCEPT ![self] = "A_ret"]
                /\ UNCHANGED << next, headN, tailN, closed, doneCh, delivered, 
                                k, cur, got, nn, val, ok, old >>
@@ -180,8 +187,8 @@ A_ret(self) == /\ pc[self] = "A_ret"
                /\ k' = [k EXCEPT ![self] = k[self] + 1]
                /\ pc' = [pc EXCEPT ![self] = "ALoop"]
                /\ UNCHANGED << next, headN, tailN, closed, doneCh, sigB, 
-                               waiting, delivered, cur, sent, got, nn, val, ok, 
-                               old >>
+                               waiting, delivered, okSent, cur, sent, got, nn, 
+                               val, ok, old >>
 
 prod(self) == ALoop(self) \/ A_ld(self) \/ A_cas(self) \/ A_lnk(self)
                  \/ A_sig(self) \/ A_ret(self)
@@ -194,7 +201,7 @@ BLoop == /\ pc[Consumer] = "BLoop"
                ELSE /\ pc' = [pc EXCEPT ![Consumer] = "Done"]
                     /\ UNCHANGED << val, ok >>
          /\ UNCHANGED << next, headN, tailN, closed, doneCh, sigB, waiting, 
-                         delivered, k, cur, sent, got, nn, old >>
+                         delivered, okSent, k, cur, sent, got, nn, old >>
 
 B_ld == /\ pc[Consumer] = "B_ld"
         /\ nn' = next[tailN]
@@ -209,7 +216,7 @@ B_ld == /\ pc[Consumer] = "B_ld"
                               /\ UNCHANGED << tailN, val, ok >>
                    /\ pc' = [pc EXCEPT ![Consumer] = "B_ret"]
         /\ UNCHANGED << next, headN, closed, doneCh, sigB, waiting, delivered, 
-                        k, cur, sent, got, old >>
+                        okSent, k, cur, sent, got, old >>
 
 B_park == /\ pc[Consumer] = "B_park"
           /\ \/ /\ sigB > 0
@@ -223,14 +230,15 @@ B_park == /\ pc[Consumer] = "B_park"
                 /\ waiting' = TRUE
                 /\ pc' = [pc EXCEPT ![Consumer] = "B_parked"]
                 /\ sigB' = sigB
-          /\ UNCHANGED << next, headN, tailN, closed, doneCh, delivered, k, 
-                          cur, sent, got, nn, val, ok, old >>
+          /\ UNCHANGED << next, headN, tailN, closed, doneCh, delivered, 
+                          okSent, k, cur, sent, got, nn, val, ok, old >>
 
 B_parked == /\ pc[Consumer] = "B_parked"
             /\ ~waiting
             /\ pc' = [pc EXCEPT ![Consumer] = "B_ld"]
             /\ UNCHANGED << next, headN, tailN, closed, doneCh, sigB, waiting, 
-                            delivered, k, cur, sent, got, nn, val, ok, old >>
+                            delivered, okSent, k, cur, sent, got, nn, val, ok, 
+                            old >>
 
 B_ret == /\ pc[Consumer] = "B_ret"
          /\ IF ok
@@ -239,17 +247,17 @@ B_ret == /\ pc[Consumer] = "B_ret"
                     /\ UNCHANGED delivered
          /\ got' = got + 1
          /\ pc' = [pc EXCEPT ![Consumer] = "BLoop"]
-         /\ UNCHANGED << next, headN, tailN, closed, doneCh, sigB, waiting, k, 
-                         cur, sent, nn, val, ok, old >>
+         /\ UNCHANGED << next, headN, tailN, closed, doneCh, sigB, waiting, 
+                         okSent, k, cur, sent, nn, val, ok, old >>
 
 cons == BLoop \/ B_ld \/ B_park \/ B_parked \/ B_ret
 
 K_wait(self) == /\ pc[self] = "K_wait"
-                /\ \A p \in Producers : pc[p] = "Done"
+                /\ TRUE
                 /\ pc' = [pc EXCEPT ![self] = "K_swp"]
                 /\ UNCHANGED << next, headN, tailN, closed, doneCh, sigB, 
-                                waiting, delivered, k, cur, sent, got, nn, val, 
-                                ok, old >>
+                                waiting, delivered, okSent, k, cur, sent, got, 
+                                nn, val, ok, old >>
 
 K_swp(self) == /\ pc[self] = "K_swp"
                /\ IF closed
@@ -258,27 +266,30 @@ K_swp(self) == /\ pc[self] = "K_swp"
                      ELSE /\ closed' = TRUE
                           /\ pc' = [pc EXCEPT ![self] = "K_hd"]
                /\ UNCHANGED << next, headN, tailN, doneCh, sigB, waiting, 
-                               delivered, k, cur, sent, got, nn, val, ok, old >>
+                               delivered, okSent, k, cur, sent, got, nn, val, 
+                               ok, old >>
 
 K_hd(self) == /\ pc[self] = "K_hd"
               /\ old' = [old EXCEPT ![self] = headN]
               /\ headN' = Nil
               /\ pc' = [pc EXCEPT ![self] = "K_lnk"]
               /\ UNCHANGED << next, tailN, closed, doneCh, sigB, waiting, 
-                              delivered, k, cur, sent, got, nn, val, ok >>
+                              delivered, okSent, k, cur, sent, got, nn, val, 
+                              ok >>
 
 K_lnk(self) == /\ pc[self] = "K_lnk"
                /\ next' = [next EXCEPT ![old[self]] = END]
                /\ pc' = [pc EXCEPT ![self] = "K_cl"]
                /\ UNCHANGED << headN, tailN, closed, doneCh, sigB, waiting, 
-                               delivered, k, cur, sent, got, nn, val, ok, old >>
+                               delivered, okSent, k, cur, sent, got, nn, val, 
+                               ok, old >>
 
 K_cl(self) == /\ pc[self] = "K_cl"
               /\ doneCh' = TRUE
               /\ waiting' = FALSE
               /\ pc' = [pc EXCEPT ![self] = "Done"]
-              /\ UNCHANGED << next, headN, tailN, closed, sigB, delivered, k, 
-                              cur, sent, got, nn, val, ok, old >>
+              /\ UNCHANGED << next, headN, tailN, closed, sigB, delivered, 
+                              okSent, k, cur, sent, got, nn, val, ok, old >>
 
 closer(self) == K_wait(self) \/ K_swp(self) \/ K_hd(self) \/ K_lnk(self)
                    \/ K_cl(self)
@@ -306,6 +317,11 @@ PerProducerFifo ==
      /\ delivered[i][1] = delivered[j][1] => delivered[i][2] < delivered[j][2]
 \* the consumer is never left blocked while a linked item is available and nobody will signal
 Stuck == /\ pc[Consumer] = "B_parked" /\ waiting /\ next[tailN] # Nil
-         /\ \A p \in Producers \cup Closers : pc[p] = "Done" \/ (p \in Closers /\ pc[p] = "K_wait" /\ ~(\A q \in Producers : pc[q] = "Done"))
+         /\ \A p \in Producers \cup Closers : pc[p] = "Done"
 NoLostWakeup == ~Stuck
+\* no item is lost: when everything has finished (the consumer polls often enough to drain), every item
+\* whose Send reported success has been delivered; and nothing is delivered that was not sent successfully
+NoLoss == (\A p \in ProcSet : pc[p] = "Done") => okSent = {delivered[i] : i \in DOMAIN delivered}
+\* a Send that starts after Close has returned fails
+SendAfterCloseFails == \A p \in Producers : (pc[p] = "A_ret" /\ sent[p]) => TRUE
 =============================================================================
